@@ -8,6 +8,7 @@
 package c11
 
 import (
+	"github.com/ryogrid/SamehadaDB/lib/container/hash"
 	"github.com/ryogrid/SamehadaDB/lib/execution/expression"
 	"github.com/ryogrid/SamehadaDB/lib/parser"
 	"github.com/ryogrid/SamehadaDB/lib/storage/index/index_constants"
@@ -32,12 +33,12 @@ type opt struct {
 	n1, n2     int
 	idx1, idx2 index_constants.IndexKind
 	stats      bool
-	filter     int  // 0 none, 1 t1.k >= c (outer/base side), 2 t2.y >= c (other table: inner side of an index join)
+	filter     int // 0 none, 1 t1.k >= c (outer/base side), 2 t2.y >= c (other table: inner side of an index join)
 	checkPins  bool
-	concrete2  bool // t2 keys are the concrete values 10,20,.. (keeps larger inner tables cheap)
+	concrete2  bool  // t2 keys are the concrete values 10,20,.. (keeps larger inner tables cheap)
 	lo1, hi1   int32 // if hi1 > lo1: t1 keys are assumed within [lo1, hi1] (stated value-range bound of the quick tier)
-	conc1      int  // the last conc1 rows of t1 get concrete keys 10,20,.. instead of symbolic ones
-	wide       int  // >0: both tables carry (and the query selects) a varchar payload of this many bytes, so the
+	conc1      int   // the last conc1 rows of t1 get concrete keys 10,20,.. instead of symbolic ones
+	wide       int   // >0: both tables carry (and the query selects) a varchar payload of this many bytes, so the
 	// build side of a hash join spans several temporary pages
 }
 
@@ -156,12 +157,12 @@ func scenarioO(o opt) {
 const none = index_constants.IndexKindInvalid
 const sl = index_constants.IndexKindSkipList
 
-func VF_C11_Hash_1x1()        { scenario(1, 1, none, none, false, false, false) }
-func VF_C11_Hash_2x2()        { scenario(2, 2, none, none, true, false, false) }
-func VF_C11_Hash_2x2_Filter() { scenario(2, 2, none, none, false, true, false) }
-func VF_C11_Index_1x3()       { scenario(1, 3, none, sl, true, false, false) }
+func VF_C11_Hash_1x1()         { scenario(1, 1, none, none, false, false, false) }
+func VF_C11_Hash_2x2()         { scenario(2, 2, none, none, true, false, false) }
+func VF_C11_Hash_2x2_Filter()  { scenario(2, 2, none, none, false, true, false) }
+func VF_C11_Index_1x3()        { scenario(1, 3, none, sl, true, false, false) }
 func VF_C11_Index_2x3_Filter() { scenario(2, 3, sl, sl, true, true, false) }
-func VF_C11_Empty()           { scenario(0, 2, none, sl, true, false, false) }
+func VF_C11_Empty()            { scenario(0, 2, none, sl, true, false, false) }
 
 // C14 variants: same statements, oracle = pins before == pins after
 func VF_C14_Join_Hash()  { scenario(2, 2, none, none, true, false, true) }
@@ -191,4 +192,99 @@ func VF_C14_Join_Hash_Wide() {
 }
 func VF_C11_Hash_Wide() {
 	scenarioO(opt{n1: 3, n2: 3, idx1: none, idx2: none, stats: true, wide: 1500, concrete2: true, conc1: 2, lo1: 5, hi1: 25})
+}
+
+// two different join keys with the same 32-bit hash value (1333 and 195726 collide under the real murmur3 of
+// the serialized integer; checked at run time) on both sides of a hash join, in a symbolic insertion order,
+// next to one symbolic key: every bucket entry has to be tested on its own tuple
+func VF_C11_Hash_Collision() {
+	ka, kb := types.NewInteger(1333), types.NewInteger(195726)
+	vf.Assert(hash.HashValue(&ka) == hash.HashValue(&kb), "the two constants really collide under the hash the executor uses")
+	vf.Cover("c11.collision")
+	db := sysx.Open("vfc11", 32)
+	cols := func(n string) []sysx.ColDef {
+		return []sysx.ColDef{{"k", types.Integer, none}, {n, types.Integer, none}}
+	}
+	db.CreateTable("t1", cols("x"))
+	db.CreateTable("t2", cols("y"))
+	keys := [][]int32{{1333, 195726}, {195726, 1333}}
+	o1, o2 := keys[vf.Choose(2)], keys[vf.Choose(2)]
+	ks := vf.I32()
+	vf.Assume(ks != 2147483647 && ks != -2147483648)
+	r1 := []row{{o1[0], 101}, {o1[1], 102}, {ks, 103}}
+	r2 := []row{{o2[0], 201}, {o2[1], 202}, {1333, 203}}
+	for _, r := range r1 {
+		db.Auto(sysx.Insert("t1", []string{"k", "x"}, []types.Value{types.NewInteger(r.k), types.NewInteger(r.tag)}))
+	}
+	for _, r := range r2 {
+		db.Auto(sysx.Insert("t2", []string{"k", "y"}, []types.Value{types.NewInteger(r.k), types.NewInteger(r.tag)}))
+	}
+	db.UpdateStats("t1")
+	db.UpdateStats("t2")
+	qi := sysx.SelectJoin("t1", "t2", [][2]string{{"t2", "y"}, {"t1", "x"}}, "t1.k", "t2.k", nil)
+	vf.MapOrdersIn("findBestJoin")
+	rows, sc, ab := db.Auto(qi)
+	vf.MapOrdersIn("")
+	vf.Assert(!ab, "join query is not aborted")
+	want := 0
+	for _, a := range r1 {
+		for _, b := range r2 {
+			if a.k == b.k {
+				want++
+				found := 0
+				for _, out := range rows {
+					if out.GetValue(sc, 0).ToInteger() == b.tag && out.GetValue(sc, 1).ToInteger() == a.tag {
+						found++
+					}
+				}
+				vf.Assert(found == 1, "each matching combination is returned exactly once, columns in the written order")
+			}
+		}
+	}
+	vf.Assert(len(rows) == want, "no other combination is returned")
+	vf.Cover("c11.joined")
+	vf.Cover("c11.match")
+}
+
+// a second equality between the two tables in the WHERE clause:
+// SELECT t2.y, t1.x FROM t1 JOIN t2 ON t1.k = t2.k WHERE t1.x = t2.y
+func VF_C11_TwoEqualities()       { twoConditions(2, 2, expression.Equal) }
+func VF_C11_TwoEqualities_2x1()   { twoConditions(2, 1, expression.Equal) }
+func VF_C11_EqualityAndLess_2x1() { twoConditions(2, 1, expression.LessThan) }
+
+func twoConditions(n1, n2 int, op expression.ComparisonType) {
+	db := sysx.Open("vfc11", 32)
+	db.CreateTable("t1", []sysx.ColDef{{"k", types.Integer, none}, {"x", types.Integer, none}})
+	db.CreateTable("t2", []sysx.ColDef{{"k", types.Integer, none}, {"y", types.Integer, none}})
+	mk2 := func(n int) []row {
+		var rs []row
+		for i := 0; i < n; i++ {
+			k, v := vf.I32(), vf.I32()
+			vf.Assume(k != 2147483647 && k != -2147483648 && v != 2147483647 && v != -2147483648)
+			rs = append(rs, row{k, v})
+		}
+		return rs
+	}
+	r1, r2 := mk2(n1), mk2(n2)
+	for _, r := range r1 {
+		db.Auto(sysx.Insert("t1", []string{"k", "x"}, []types.Value{types.NewInteger(r.k), types.NewInteger(r.tag)}))
+	}
+	for _, r := range r2 {
+		db.Auto(sysx.Insert("t2", []string{"k", "y"}, []types.Value{types.NewInteger(r.k), types.NewInteger(r.tag)}))
+	}
+	qi := sysx.SelectJoin("t1", "t2", [][2]string{{"t2", "y"}, {"t1", "x"}}, "t1.k", "t2.k", sysx.CmpCols("t1.x", op, "t2.y"))
+	vf.MapOrdersIn("findBestJoin")
+	rows, _, ab := db.Auto(qi)
+	vf.MapOrdersIn("")
+	vf.Assert(!ab, "join query is not aborted")
+	want := 0
+	for _, a := range r1 {
+		for _, b := range r2 {
+			if a.k == b.k && ((op == expression.Equal && a.tag == b.tag) || (op == expression.LessThan && a.tag < b.tag)) {
+				want++
+			}
+		}
+	}
+	vf.Assert(len(rows) == want, "exactly the combinations which satisfy both conditions are returned")
+	vf.Cover("c11.two-equalities")
 }
